@@ -413,6 +413,8 @@ fn workload_strategy(prop: &'static str, gates: Vec<String>) -> BoxedStrategy<Wo
         big_keys: true,
         max_insert_rows: if ddl_heavy { 10 } else { 4 },
         prefill: !ddl_heavy,
+        // toasted values are where the log has to cover a second file per table
+        long_weight: if ddl_heavy { 1 } else { 4 },
         ..Profile::default()
     };
     let sync = if prop == "C01" { Just(2u8).boxed() } else { (0u8..3).boxed() };
